@@ -42,6 +42,19 @@ def run(res, tier, only_case=None):
                 assert zckfmt.H(b.h.cht, s) == b.h.chunks[k][0] or len(s) == 0
                 exp["c%d" % k] = "%d/%d/%s" % (len(s), len(s), c02.h16(s))
             syms = sorted(exp)
+            # short-buffer requests (the first half of the chunk must come back) and single partial zck_read calls
+            # (no oracle of their own: where the stream stands after a chunk request is not part of the property,
+            # the model decides it) leave decompressed bytes unconsumed before the next request
+            shorts = []
+            for k in range(n):
+                d = b.entries[k]
+                if len(d) >= 2:
+                    hs = len(d) // 2
+                    exp["G%d:%d" % (k, hs)] = "%d/%d/%s" % (hs, hs, c02.h16(d[:hs]))
+                    shorts.append("G%d:%d" % (k, hs))
+            for rs in (1, 7):
+                exp["r%d" % rs] = None
+                shorts.append("r%d" % rs)
             seqs = []
             for L in range(1, maxlen + 1):
                 allseq = list(itertools.product(syms, repeat=L))
@@ -53,6 +66,13 @@ def run(res, tier, only_case=None):
                 seqs += allseq
             for _ in range(2 if tier == "quick" else 12):
                 seqs.append(tuple(rng.choice(syms) for _ in range(200)))
+            gsyms = [x for x in syms if x[0] == "g"]
+            for sh in shorts:
+                for g in gsyms:
+                    seqs.append((sh, g))
+                    seqs.append((g, sh, g))
+            for _ in range(4 if tier == "quick" else 40):
+                seqs.append(tuple(rng.choice(syms + shorts) for _ in range(rng.choice((3, 5, 60)))))
             for sq in seqs:
                 items.append(("%s:len%d" % (b.kind, len(sq)), [exp[x] for x in sq], "F %s %s" % (b.f.hex(), ",".join(sq))))
     lines = [it[2] for it in items]
@@ -81,7 +101,9 @@ def run(res, tier, only_case=None):
             else:
                 for j, (o, g, e) in enumerate(zip(ops, got, expect)):
                     val = g.split("=", 1)[1].split("!")[0] if "=" in g else g
-                    if val != e:
+                    if o[0] == "r" and g.endswith("!1"):
+                        break   # a failed zck_read leaves the context in the error state: later requests are refused, by contract
+                    if e is not None and val != e:
                         bad = "request #%d (%s) after %s returns %s instead of %s (return value/bytes/sha256-64)" % (j + 1, o, ",".join(ops[:j]) or "nothing", val, e)
                         break
         if bad:
